@@ -415,7 +415,7 @@ theorem lookKeys_fold (root : Root) (n : Nat) :
         · exact List.mem_append_left _ hacc
         · exact hacc
 
-theorem lookKeys_mem (P : TProg) (root : Root) (n : Nat) :
+theorem lookKeys_mem_iff (P : TProg) (root : Root) (n : Nat) :
     (root, n) ∈ lookKeys P ↔ ∃ r ∈ P, rootOf r.part = root ∧ lookahead r = n ∧ 0 < n := by
   unfold lookKeys
   rw [lookKeys_fold root n P []]
@@ -772,7 +772,7 @@ theorem groundAt_complete (P : TProg) (hP : progFut P = true) (h : Nat) (r : TRu
     exact groundAt_inst_mem P k _ 0 (Nat.zero_le _) r false hsel
       ((rulesOfPart_iff P _ r false).mpr ⟨hr, rfl, hl, rfl⟩) r' (by simpa using hi)
   · have hn : 0 < lookahead r := by omega
-    have hkey : (rootOf r.part, lookahead r) ∈ lookKeys P := (lookKeys_mem P _ _).mpr ⟨r, hr, rfl, rfl, hn⟩
+    have hkey : (rootOf r.part, lookahead r) ∈ lookKeys P := (lookKeys_mem_iff P _ _).mpr ⟨r, hr, rfl, rfl, hn⟩
     by_cases hfit : k + lookahead r ≤ h
     · -- permanent copy grounded at step k + n
       refine ⟨k + lookahead r, none, by omega, hfit, Or.inl ⟨rfl, Or.inr (Or.inr ?_)⟩, ?_⟩
